@@ -147,17 +147,22 @@ def _run_alone(exe, case, per_case_timeout, cwd, env, extra_args):
     return "crash -"
 
 
-def run_impl(exe, cases, per_case_timeout=10.0, cwd=None, env=None, extra_args=()):
+def run_impl(exe, cases, per_case_timeout=10.0, cwd=None, env=None, extra_args=(), max_abnormal=10):
     """Feed cases to the Go driver one at a time.  The driver answers each line before
     reading the next; if the process dies (unrecoverable panic in a goroutine) the case
     is recorded as 'crash -', if it does not answer within the deadline as 'timeout -',
-    and a fresh process continues with the next case."""
+    and a fresh process continues with the next case.  After max_abnormal timeouts / crashes the
+    remaining cases are not run (result 'skipped -'): the check has its violations and replays, and a
+    change that makes every call hang must not make the check itself run for hours."""
     import threading, queue
     results = []
     crashes = []
     n = len(cases)
     i = 0
     while i < n:
+        if sum(1 for r in results if r.startswith(("timeout", "crash"))) >= max_abnormal:
+            results += ["skipped -"] * (n - i)
+            break
         p = subprocess.Popen([exe] + list(extra_args), stdin=subprocess.PIPE, stdout=subprocess.PIPE,
                              stderr=subprocess.PIPE, cwd=cwd, env=env, bufsize=0)
         q = queue.Queue()
@@ -225,6 +230,12 @@ def run_impl(exe, cases, per_case_timeout=10.0, cwd=None, env=None, extra_args=(
                 break
             results.append(line.decode("utf-8", "replace").rstrip("\n"))
             i += 1
+            if results[-1].startswith("timeout"):
+                # the driver's own deadline fired (a hung call); goroutines of that call are still around:
+                # continue in a fresh process, and stop altogether after max_abnormal of these
+                p.kill()
+                dead = True
+                break
         if not dead:
             try:
                 p.stdin.close()
@@ -474,6 +485,9 @@ class Check:
         return None
 
     def violation(self, replay, no_input=False):
+        if any(str(replay.get(k, "")).startswith("skipped -") for k in ("got", "impl")):
+            self.count("not_run_after_repeated_timeouts")
+            return
         f = self.matches_known(replay)
         if f is not None:
             key = f["id"]
